@@ -311,7 +311,13 @@ def do_check(check_id, tier, seed):
     os.makedirs(work)
     agg = new_agg()
     try:
+        only_phases = [x for x in os.environ.get("VERIF_ONLY_PHASES", "").split(",") if x]
+        if only_phases:
+            # debugging aid (seeded-change runs): a partial run can refute, but it can never come out as `held`
+            agg["inconclusive"].append("partial run: only the phases " + ",".join(only_phases) + " were executed (VERIF_ONLY_PHASES)")
         for phase in cfg["phases"](tier):
+            if only_phases and phase["name"] not in only_phases:
+                continue
             p0 = time.time()
             e0 = agg["evaluations"]
             if phase.get("kind") == "python":
